@@ -284,7 +284,9 @@ def splice_fn(fid, text, sections, opts):
     # exclude loops of nested closures? keep source order
     for key, body in sections.items():
         k0 = key[0]
-        if k0 == 'sig':
+        if k0 == 'attr':
+            ins.append((s, body.strip() + '\n', 0))
+        elif k0 == 'sig':
             ins.append((b, '\n' + body + '\n', 0))
         elif k0 == 'body_start':
             ins.append((b + 1, '\n' + body + '\n', 0))
@@ -459,7 +461,7 @@ def assemble(template_path, repo):
                     if c2 == 'rw':
                         rws.append(parse_rw(s2[6:]))
                         cur = None
-                    elif c2 in ('sig', 'fn_end', 'tail', 'body_start'):
+                    elif c2 in ('sig', 'fn_end', 'tail', 'body_start', 'attr'):
                         cur = (c2,)
                         sections.setdefault(cur, '')
                     elif c2 == 'loop':
